@@ -222,7 +222,21 @@ fn check(c: &Case) -> Verdict {
         }
         if prog.header.reg_count != ctx.next_reg as u32 || prog.header.instr_count as usize != ctx.instrs.len() || prog.header.const_count as usize != ctx.const_entries.len() { v.fail("C07|decoded-header-differs", format!("header {:?}\n{}", prog.header, p.source())); return v; }
       }
-      match catch_unwind(AssertUnwindSafe(|| prog.decode_const_entries())) { Ok(Ok(_)) => {} Ok(Err(e)) => { v.fail(format!("C07|emitted-constants-rejected|{}", e.kind_name()), p.source()); return v; } Err(e) => { v.fail("C07|panic|decode-emitted-constants", panic_msg(e)); return v; } }
+      match catch_unwind(AssertUnwindSafe(|| prog.decode_const_entries())) {
+        Ok(Ok(consts)) => {
+          // "decoding yields the same constants the compiler wrote": every value a user variable holds in the compiling interpreter
+          // is one of the decoded constants (compile() emits one constant per value register)
+          // (not for programs with a comprehension: evaluating one replaces the interpreter's plan, so compile() never sees the earlier statements)
+          let decoded: Vec<RVal> = consts.iter().map(from_value).collect();
+          let snap = if p.features.iter().any(|f| f == "comprehension") { Snapshot::new() } else { sess.snapshot() };
+          for (name, val) in snap {
+            if !decoded.contains(&val) {
+              v.fail(format!("C07|decoded-constant-value|{}", val.kind().chars().take(16).collect::<String>()), format!("variable `{}` = {} in the compiling interpreter, but no decoded constant has that value (decoded: {})\n{}", name, val.show(), decoded.iter().map(|d| d.show()).collect::<Vec<_>>().join(" ; ").chars().take(400).collect::<String>(), p.source()));
+              return v;
+            }
+          }
+        }
+        Ok(Err(e)) => { v.fail(format!("C07|emitted-constants-rejected|{}", e.kind_name()), p.source()); return v; } Err(e) => { v.fail("C07|panic|decode-emitted-constants", panic_msg(e)); return v; } }
       let mut keys = vec![format!("roundtrip|{}", instr_kinds(&prog))];
       // ---- (2) every truncation
       let n = bytes.len();
